@@ -69,6 +69,7 @@ fn call_spec() -> impl Strategy<Value = CallSpec> {
         1 => Just(InternedCfg),
         1 => (-1..=2i32).prop_map(UseInterned),
         1 => Just(UseChain),
+        2 => Just(KeysTotal),
         1 => (name(), any::<bool>()).prop_map(|(n, b)| RowParamVia(n, b)),
     ]
 }
@@ -244,7 +245,7 @@ fn open_finding(property: &str, signature: &str) -> bool {
 fn rule(property: &str) -> &'static str {
     match property {
         "C01" => {
-            "histories (LRU capacity 1..=3, <=40 ops over 3 keyed sources + 1 singleton + 1 tracked map, 25 memoized \
+            "histories (LRU capacity 1..=3, <=40 ops over 3 keyed sources + 1 singleton + 1 tracked map, 26 memoized \
              function shapes) interpreted against pico and a never-memoizing model; non-trivial = the history \
              calls a memoized function again after a write changed one of its transitive inputs; distinct by history text"
         }
@@ -319,7 +320,9 @@ fn run(args: &Args) {
         "C02" => args.tier.pick(60_000, 1_500_000),
         _ => args.tier.pick(60_000, 1_200_000),
     };
-    let workers = vcore::num_workers();
+    // a fixed worker count: the generated set is a function of (seed, tier) only, not of the
+    // number of cores of the machine (each worker has its own derived seed)
+    let workers = 8;
     let found = vcore::run_prop_parallel(
         &report,
         "histories",
